@@ -154,12 +154,13 @@ section
 variable (I : Interp) (p : Evm.Params) (S : Nat → Prop) (w0 : Evm.World)
 variable (cs : CState) (w : Evm.World) (f : Evm.Frame) (kcs : List CCont)
 
-/-- what a call instruction of the model amounts to on the reference side: no claim (an error report or a tagged
-    end); a stack underflow of the running concrete frame; or one successor, related to a concrete configuration with
-    exactly the same completions -/
+/-- what an instruction the frame-stack machine decodes itself (a call, a LOG, EXTCODESIZE) amounts to on the reference
+    side: no claim (an error report or a tagged end); an exceptional halt of the running concrete frame (stack
+    underflow, a write in a static frame); or one successor, related to a concrete configuration with exactly the same
+    completions -/
 def CallCorr (lo : LocalOut) : Prop :=
   (∃ e, lo = { ends := [e] } ∧ e.st = cs.st ∧ ((∃ r', e.out = .stuck r') ∨ e.tag ≠ .normal)) ∨
-  (lo = localHalt cs.st .stackUnderflow ∧ Evm.step p w f = .halt w .stackUnderflow) ∨
+  (∃ h, lo = localHalt cs.st h ∧ haltWith h [] = h ∧ Evm.step p w f = .halt w h) ∨
   (∃ cs' w' f' kcs', lo = { next := [cs'] } ∧ cs'.st.path = cs.st.path ∧ RelC I p S w0 cs' w' f' kcs' ∧
       ∀ r, RunStack p w f kcs r ↔ RunStack p w' f' kcs' r)
 
@@ -263,7 +264,7 @@ theorem callGo_corr (hs : SimpSound s) (hmem : cfg.maxMem + 32 ≤ p.memLimit) (
         { storage := cs.st.storage, transient := cs.st.transient }) a = viewOf cs a := by
       intro a; rw [stoOf_stoSet]; rfl
     have hWs : WRelM I S w0 w (stoOf (stoSet cs.stores cs.this
-        { storage := cs.st.storage, transient := cs.st.transient })) :=
+        { storage := cs.st.storage, transient := cs.st.transient })) (evalLogs I cs.logs) :=
       hrel.hW.congr (fun a _ => hstores a)
     refine ⟨⟨?_, rfl, StackRel.nil, ?_, hR.subst.same rfl rfl, MemRel.nil I, MemRel.nil I⟩, ?_, ?_, ?_, hcb t prog hc, ?_,
       List.Forall₂.cons ⟨hRk, e_this.trans hrel.this, hrel.inS, e_depth.trans hrel.depth, hrel.hcode, rfl, rfl, hWs⟩
@@ -331,10 +332,10 @@ theorem callOut_corr (hs : SimpSound s) (hmem : cfg.maxMem + 32 ≤ p.memLimit) 
   unfold callOut
   simp only
   cases hst : cs.st.stack with
-  | nil => exact Or.inr (Or.inl ⟨rfl, hunder (by rw [← hlen, hst]; simp)⟩)
+  | nil => exact Or.inr (Or.inl ⟨_, rfl, rfl, hunder (by rw [← hlen, hst]; simp)⟩)
   | cons gv r =>
     cases r with
-    | nil => exact Or.inr (Or.inl ⟨rfl, hunder (by rw [← hlen, hst]; simp)⟩)
+    | nil => exact Or.inr (Or.inl ⟨_, rfl, rfl, hunder (by rw [← hlen, hst]; simp)⟩)
     | cons tov r0 =>
       simp only
       rw [hst] at hstk
@@ -350,7 +351,7 @@ theorem callOut_corr (hs : SimpSound s) (hmem : cfg.maxMem + 32 ≤ p.memLimit) 
           | nil =>
             have := hr0.nil_inv
             subst this
-            exact Or.inr (Or.inl ⟨rfl, hunder (by rw [hc1]; simp)⟩)
+            exact Or.inr (Or.inl ⟨_, rfl, rfl, hunder (by rw [hc1]; simp)⟩)
           | cons fv r1 =>
             obtain ⟨v, c2, hc2, hwv, hr1⟩ := hr0.cons_inv
             subst hc2
@@ -358,7 +359,7 @@ theorem callOut_corr (hs : SimpSound s) (hmem : cfg.maxMem + 32 ≤ p.memLimit) 
             rcases callArgs_cases (cfg := cfg) (codes := codes) (cs := cs) (op := op) (t := t) hs hr1 with
               ⟨e, hlt⟩ | e | ⟨ao, al, ro, rl, rest, crest, hcr, hrest, e⟩
             · rw [e]
-              exact Or.inr (Or.inl ⟨rfl, evm_call7_short hopc h7 hlc (by rw [hc1]; simp; omega)⟩)
+              exact Or.inr (Or.inl ⟨_, rfl, rfl, evm_call7_short hopc h7 hlc (by rw [hc1]; simp; omega)⟩)
             · rw [e]; exact Or.inl ⟨_, rfl, rfl, Or.inl ⟨_, rfl⟩⟩
             · rw [e]
               subst hcr
@@ -378,13 +379,279 @@ theorem callOut_corr (hs : SimpSound s) (hmem : cfg.maxMem + 32 ≤ p.memLimit) 
           rcases callArgs_cases (cfg := cfg) (codes := codes) (cs := cs) (op := op) (t := t) (fundOk := true) hs hr0
             with ⟨e, hlt⟩ | e | ⟨ao, al, ro, rl, rest, crest, hcr, hrest, e⟩
           · rw [e]
-            exact Or.inr (Or.inl ⟨rfl, evm_call6_short hopc h6 hlc (by rw [hc1]; simp; omega)⟩)
+            exact Or.inr (Or.inl ⟨_, rfl, rfl, evm_call6_short hopc h6 hlc (by rw [hc1]; simp; omega)⟩)
           · rw [e]; exact Or.inl ⟨_, rfl, rfl, Or.inl ⟨_, rfl⟩⟩
           · rw [e]
             subst hcr
             refine callGo_corr hs hmem hdep hcodes hS hcb hrel hcall hrest ht (v := 0) (fun _ => rfl) ?_
             rw [et]; exact evm_call6 hopc h6 hlc hc1
       · exact Or.inl ⟨_, rfl, rfl, Or.inl ⟨_, rfl⟩⟩
+
+end
+
+/-! ### LOG0..LOG4 -/
+
+theorem isLogOp_iff (op : Nat) : isLogOp op = true ↔ IsLog op := by
+  unfold isLogOp IsLog
+  simp only [Bool.and_eq_true, decide_eq_true_eq]
+  omega
+
+/-- one more event in the world's log and in the model's -/
+theorem WRelM.log {I : Interp} {S : Nat → Prop} {w0 w : Evm.World} {v : Nat → AcctSto}
+    {lg : List (Nat × List Nat × List Nat)} (h : WRelM I S w0 w v lg) (x : Nat × List Nat × List Nat) :
+    WRelM I S w0 { w with logs := w.logs ++ [x] } v (lg ++ [x]) :=
+  ⟨h.hsto, h.htr, h.wf, h.other, h.rest.1, h.rest.2.1, h.rest.2.2.1, h.rest.2.2.2.1,
+   by show w.logs ++ [x] = w0.logs ++ (lg ++ [x]); rw [h.rest.2.2.2.2, List.append_assoc]⟩
+
+section
+variable {I : Interp} {p : Evm.Params} {S : Nat → Prop} {w0 : Evm.World}
+variable {cs : CState} {w : Evm.World} {f : Evm.Frame} {kcs : List CCont}
+variable {s : Simp} {cfg : Cfg}
+
+/-- **LOG.** -/
+theorem logOut_corr (hs : SimpSound s) (hmem : cfg.maxMem + 32 ≤ p.memLimit)
+    (hrel : RelC I p S w0 cs w f kcs) {op : Nat} (hop : opAt cs.code cs.st.pc = op) (hlog : IsLog op)
+    (hl : ¬ cs.st.stack.length > 1024) :
+    CallCorr I p S w0 cs w f kcs (logOut s cfg cs op) := by
+  have hR := hrel.hR
+  have hopc : (f.code[f.pc]?).getD 0 = op := hR.op_eq.trans hop
+  have hlen := hR.stack.length
+  have hlc : ¬ f.stack.length > 1024 := by rw [← hlen]; exact hl
+  have hstk := hR.stack
+  unfold logOut
+  simp only
+  by_cases hst : cs.env.isStatic = true
+  · rw [if_pos hst]
+    by_cases hshort : cs.st.stack.length < op - 0xa0 + 2
+    · rw [if_pos hshort]
+      exact Or.inl ⟨_, rfl, rfl, Or.inr (fun h => Tag.noConfusion h)⟩
+    · rw [if_neg hshort]
+      refine Or.inr (Or.inl ⟨.writeInStatic, rfl, rfl, ?_⟩)
+      rw [hlen] at hshort
+      match hfs : f.stack, hshort with
+      | [], h0 => simp at h0
+      | [_], h0 => simp at h0
+      | off :: len :: s', h0 =>
+        simp only [List.length_cons] at h0
+        exact evm_log_static hopc hlog hlc hfs (by omega) (by rw [← hR.env.isStatic]; exact hst)
+  · rw [if_neg hst]
+    have hns : f.isStatic = false := by
+      rw [← hR.env.isStatic]; simpa using hst
+    cases hcs : cs.st.stack with
+    | nil =>
+      refine Or.inr (Or.inl ⟨.stackUnderflow, rfl, rfl, evm_log_short hopc hlog hlc ?_⟩)
+      rw [← hlen, hcs]; simp
+    | cons lv r1 =>
+      rw [hcs] at hstk
+      obtain ⟨off, c1, hc1, hwo, hr1⟩ := hstk.cons_inv
+      simp only
+      split
+      · rename_i sz1 loc heq1
+        have e1 := toBV256_con hs hwo heq1
+        subst e1
+        cases r1 with
+        | nil =>
+          have := hr1.nil_inv
+          subst this
+          refine Or.inr (Or.inl ⟨.stackUnderflow, rfl, rfl, evm_log_short hopc hlog hlc ?_⟩)
+          rw [hc1]; simp
+        | cons zv r2 =>
+          obtain ⟨len, c2, hc2, hwl, hr2⟩ := hr1.cons_inv
+          subst hc2
+          simp only
+          split
+          · rename_i sz2 size heq2
+            have e2 := toBV256_con hs hwl heq2
+            subst e2
+            by_cases hn : r2.length < op - 0xa0
+            · rw [if_pos hn]
+              refine Or.inr (Or.inl ⟨.stackUnderflow, rfl, rfl, evm_log_short hopc hlog hlc ?_⟩)
+              rw [hc1]; simp only [List.length_cons]; rw [← hr2.length]; omega
+            rw [if_neg hn]
+            by_cases hm : size ≠ 0 ∧ loc + size > cfg.maxMem
+            · rw [if_pos hm]
+              exact Or.inl ⟨_, rfl, rfl, Or.inr (fun h => Tag.noConfusion h)⟩
+            rw [if_neg hm]
+            have hok : size = 0 ∨ loc + size ≤ p.memLimit := by
+              by_cases h0 : size = 0
+              · exact Or.inl h0
+              · right; have : ¬ loc + size > cfg.maxMem := fun h => hm ⟨h0, h⟩
+                omega
+            have hstep := evm_log_ok (p := p) (w := w) hopc hlog hlc hc1 (by rw [← hr2.length]; exact hn) hns hok
+            refine Or.inr (Or.inr ⟨_, _, _, kcs, rfl, rfl, ?_, fun r => runStack_next hstep kcs r⟩)
+            refine ⟨?_, ?_, hrel.inS, ?_, hrel.hcode, ?_, hrel.conts⟩
+            · exact hR.next' ⟨touch_code .., touch_caller .., touch_value .., touch_this .., touch_calldata ..,
+                touch_isStatic .., touch_returndata ..⟩ rfl rfl rfl (touch_mem ..) rfl (by show f.pc + 1 = _; rw [hR.pc])
+                (hr2.drop _)
+            · show (f.touch loc size).this = cs.this
+              rw [touch_this]; exact hrel.this
+            · show (f.touch loc size).depth = cs.depth
+              rw [touch_depth]; exact hrel.depth
+            · have hx : evalLog I ⟨cs.env.address, r2.take (op - 0xa0), readMem cs.st.mem loc size⟩ =
+                  (f.this, c2.take (op - 0xa0), Evm.readBytes f.mem loc size) := by
+                simp only [evalLog]
+                rw [hR.env.address.2.2, (hr2.take _).denote_map, (readMem_rel hR.mem loc size).2]
+              have := (hrel.hW.log (f.this, c2.take (op - 0xa0), Evm.readBytes f.mem loc size))
+              simp only [evalLogs, List.map_append, List.map_cons, List.map_nil]
+              rw [hx]
+              exact this.congr (fun a _ => rfl)
+          · exact Or.inl ⟨_, rfl, rfl, Or.inl ⟨_, rfl⟩⟩
+      · exact Or.inl ⟨_, rfl, rfl, Or.inl ⟨_, rfl⟩⟩
+
+end
+
+/-! ### EXTCODESIZE / EXTCODECOPY -/
+
+theorem isExtOp_iff (op : Nat) : isExtOp op = true ↔ (op = 0x3b ∨ op = 0x3c) := by
+  simp [isExtOp]
+
+/-- literal bytes against themselves -/
+theorem bytes_lit_rel {I : Interp} {prog : List Nat} (hb : ∀ b ∈ prog, b < 256) (off size : Nat) :
+    MemRel I ((List.range size).map fun i => T.lit 8 ((prog[off + i]?).getD 0)) (Evm.readBytes prog off size) := by
+  refine ⟨?_, ?_⟩
+  · intro b hb'
+    simp only [List.mem_map] at hb'
+    obtain ⟨i, _, rfl⟩ := hb'
+    exact ⟨(by decide : 0 < 8), rfl⟩
+  · simp only [Evm.readBytes, List.map_map]
+    apply List.map_congr_left
+    intro i _
+    simp only [Function.comp, T.eval]
+    have : (prog[off + i]?).getD 0 < 256 := by
+      cases hg : prog[off + i]? with
+      | none => simp
+      | some b => simp only [Option.getD_some]; exact hb b (List.mem_of_getElem? hg)
+    exact Nat.mod_eq_of_lt (by simpa using this)
+
+theorem zero_bytes_rel {I : Interp} (off size : Nat) :
+    MemRel I ((List.range size).map fun _ => T.lit 8 0) (Evm.readBytes [] off size) := by
+  have := bytes_lit_rel (I := I) (prog := []) (fun b hb => absurd hb List.not_mem_nil) off size
+  simpa using this
+
+section
+variable (I : Interp) (p : Evm.Params) (S : Nat → Prop) (w0 : Evm.World)
+variable (cs : CState) (w : Evm.World) (f : Evm.Frame) (kcs : List CCont) (s : Simp) (o : Oracle) (cfg : Cfg)
+
+/-- EXTCODESIZE / EXTCODECOPY: as `CallCorr`, or the copy tail shared with CALLDATACOPY / CODECOPY -/
+def ExtCorr (lo : LocalOut) : Prop :=
+  CallCorr I p S w0 cs w f kcs lo ∨
+  ∃ out, lo = liftOut cs out ∧ Corr I cs.env cs.code p w s o cfg cs.st f out ∧ Shape s o cfg cs.code cs.st out
+
+end
+
+section
+variable {I : Interp} {p : Evm.Params} {S : Nat → Prop} {w0 : Evm.World}
+variable {cs : CState} {w : Evm.World} {f : Evm.Frame} {kcs : List CCont}
+variable {s : Simp} {o : Oracle} {cfg : Cfg} {codes : List (Nat × List Nat)}
+
+theorem extOut_corr (hs : SimpSound s) (hmem : cfg.maxMem + 32 ≤ p.memLimit)
+    (hcodes : ∀ a, w0.codeOf a = codeOf codes a)
+    (hcb : ∀ a prog, codeOf codes a = some prog → ∀ b ∈ prog, b < 256)
+    (hrel : RelC I p S w0 cs w f kcs) (hsat : Sat I cs.st.path) {op : Nat} (hop : opAt cs.code cs.st.pc = op)
+    (hext : op = 0x3b ∨ op = 0x3c) (hl : ¬ cs.st.stack.length > 1024) :
+    ExtCorr I p S w0 cs w f kcs s o cfg (extOut s cfg codes cs op) := by
+  have hR := hrel.hR
+  have hopc : (f.code[f.pc]?).getD 0 = op := hR.op_eq.trans hop
+  have hlen := hR.stack.length
+  have hlc : ¬ f.stack.length > 1024 := by rw [← hlen]; exact hl
+  have hstk := hR.stack
+  have hwcode : ∀ t, w.codeOf t = codeOf codes t := by
+    intro t
+    have := hcodes t
+    unfold Evm.World.codeOf at this ⊢
+    rw [hrel.hW.rest.1]; exact this
+  unfold extOut
+  simp only
+  cases hcs : cs.st.stack with
+  | nil =>
+    refine Or.inl (Or.inr (Or.inl ⟨.stackUnderflow, rfl, rfl, ?_⟩))
+    have h0 : f.stack = [] := by
+      have := hlen; rw [hcs] at this; exact List.eq_nil_of_length_eq_zero this.symm
+    rcases hext with rfl | rfl
+    · rw [evm_extcodesize hopc hlc]; unfold Evm.op1; rw [h0]
+    · exact evm_extcodecopy_short hopc hlc (by rw [h0]; simp)
+  | cons av r0 =>
+    rw [hcs] at hstk
+    obtain ⟨a, c0, hc0, hwa, hr0⟩ := hstk.cons_inv
+    simp only
+    split
+    · rename_i sz t heq
+      obtain ⟨et, ht⟩ := reBV160_con hs hwa heq
+      by_cases hch : (t == hevmAddr || t == svmAddr) = true
+      · rw [if_pos hch]; exact Or.inl (Or.inl ⟨_, rfl, rfl, Or.inl ⟨_, rfl⟩⟩)
+      rw [if_neg hch]
+      by_cases h3b : op = 0x3b
+      · rw [if_pos h3b]
+        subst h3b
+        have hstep : Evm.step p w f = .next w { f with
+            stack := ((w.codeOf (Evm.addrMask a)).getD []).length % Evm.W :: c0, pc := f.pc + 1 } := by
+          rw [evm_extcodesize hopc hlc]; unfold Evm.op1; rw [hc0]
+        refine Or.inl (Or.inr (Or.inr ⟨_, w, _, kcs, rfl, rfl, ?_, fun r => runStack_next hstep kcs r⟩))
+        refine hrel.step (CReach.single hstep) ?_ hrel.wrel
+        refine hR.next' ⟨rfl, rfl, rfl, rfl, rfl, rfl, rfl⟩ rfl rfl rfl rfl rfl (by show f.pc + 1 = _; rw [hR.pc]) ?_
+        refine StackRel.cons ?_ hr0
+        have : Evm.addrMask a = t := by rw [et]; rfl
+        rw [this, hwcode t]
+        exact wordRel_con (Nat.mod_lt _ (by decide))
+      rw [if_neg h3b]
+      have h3c : op = 0x3c := by rcases hext with h | h; exact absurd h h3b; exact h
+      subst h3c
+      have hshort : f.stack.length < 4 → Evm.step p w f = .halt w .stackUnderflow :=
+        evm_extcodecopy_short hopc hlc
+      cases r0 with
+      | nil =>
+        have := hr0.nil_inv; subst this
+        exact Or.inl (Or.inr (Or.inl ⟨.stackUnderflow, rfl, rfl, hshort (by rw [hc0]; simp)⟩))
+      | cons lv r1 =>
+        obtain ⟨loc', c1, hc1, hwl, hr1⟩ := hr0.cons_inv
+        subst hc1
+        simp only
+        split
+        · rename_i sz1 loc heq1
+          have e1 := toBV256_con hs hwl heq1
+          subst e1
+          cases r1 with
+          | nil =>
+            have := hr1.nil_inv; subst this
+            exact Or.inl (Or.inr (Or.inl ⟨.stackUnderflow, rfl, rfl, hshort (by rw [hc0]; simp)⟩))
+          | cons ov r2 =>
+            obtain ⟨off', c2, hc2, hwo, hr2⟩ := hr1.cons_inv
+            subst hc2
+            simp only
+            split
+            · rename_i sz2 off heq2
+              have e2 := toBV256_con hs hwo heq2
+              subst e2
+              cases r2 with
+              | nil =>
+                have := hr2.nil_inv; subst this
+                exact Or.inl (Or.inr (Or.inl ⟨.stackUnderflow, rfl, rfl, hshort (by rw [hc0]; simp)⟩))
+              | cons sv rest =>
+                obtain ⟨size', crest, hc3, hwz, hrest⟩ := hr2.cons_inv
+                subst hc3
+                simp only
+                split
+                · rename_i sz3 size heq3
+                  have e3 := toBV256_con hs hwz heq3
+                  subst e3
+                  have hmask : Evm.addrMask a = t := by rw [et]; rfl
+                  have hcstep := fun hok => evm_extcodecopy (p := p) (w := w) hopc hlc hc0 hok
+                  rw [hmask, hwcode t] at hcstep
+                  cases hc : codeOf codes t with
+                  | some prog =>
+                    simp only
+                    rw [hc] at hcstep
+                    exact Or.inr ⟨_, rfl, corr_copyToMem hR hsat hmem hrest (bytes_lit_rel (hcb t prog hc) off size)
+                      hcstep, Shape.copy⟩
+                  | none =>
+                    simp only
+                    rw [hc] at hcstep
+                    exact Or.inr ⟨_, rfl, corr_copyToMem hR hsat hmem hrest (zero_bytes_rel off size) hcstep,
+                      Shape.copy⟩
+                · exact Or.inl (Or.inl ⟨_, rfl, rfl, Or.inl ⟨_, rfl⟩⟩)
+            · exact Or.inl (Or.inl ⟨_, rfl, rfl, Or.inl ⟨_, rfl⟩⟩)
+        · exact Or.inl (Or.inl ⟨_, rfl, rfl, Or.inl ⟨_, rfl⟩⟩)
+    · exact Or.inl (Or.inl ⟨_, rfl, rfl, Or.inl ⟨_, rfl⟩⟩)
 
 end
 
@@ -418,6 +685,26 @@ theorem callOut_shape : CallShape cs (callOut s cfg codes cs op) := by
 
 end
 
+/-- a LOG, relation-free -/
+theorem logOut_shape {s : Simp} {cfg : Cfg} {cs : CState} {op : Nat} : CallShape cs (logOut s cfg cs op) := by
+  unfold logOut
+  simp only
+  (repeat' split) <;> call_leaf
+
+/-- EXTCODESIZE / EXTCODECOPY, relation-free: as a call, or the copy tail -/
+def ExtShape (s : Simp) (o : Oracle) (cfg : Cfg) (cs : CState) (lo : LocalOut) : Prop :=
+  CallShape cs lo ∨ ∃ out, lo = liftOut cs out ∧ Shape s o cfg cs.code cs.st out
+
+theorem extOut_shape {s : Simp} {o : Oracle} {cfg : Cfg} {codes : List (Nat × List Nat)} {cs : CState} {op : Nat} :
+    ExtShape s o cfg cs (extOut s cfg codes cs op) := by
+  unfold extOut
+  simp only
+  (repeat' split) <;>
+    first
+      | exact Or.inl (Or.inl ⟨_, rfl, rfl⟩)
+      | exact Or.inl (Or.inr ⟨_, rfl, rfl⟩)
+      | exact Or.inr ⟨_, rfl, Shape.copy⟩
+
 /-! ### one step of the frame-stack machine -/
 
 theorem isCallOp_iff (op : Nat) : isCallOp op = true ↔ (op = 0xf1 ∨ op = 0xf2 ∨ op = 0xf4 ∨ op = 0xfa) := by
@@ -426,55 +713,78 @@ theorem isCallOp_iff (op : Nat) : isCallOp op = true ↔ (op = 0xf1 ∨ op = 0xf
 section
 variable {s : Simp} {o : Oracle} {cfg : Cfg} {codes : List (Nat × List Nat)} {cs : CState}
 
-/-- `stepC` is `finish` of a call, or of the per-frame step (with its stack limit) -/
+/-- `stepC` is `finish` of an instruction it decodes itself, or of the per-frame step (with its stack limit) -/
 theorem stepC_eq :
     stepC s o cfg codes cs =
       if ¬ cs.st.stack.length > 1024 ∧ isCallOp (opAt cs.code cs.st.pc) = true then
         finish cs (callOut s cfg codes cs (opAt cs.code cs.st.pc))
+      else if ¬ cs.st.stack.length > 1024 ∧ isLogOp (opAt cs.code cs.st.pc) = true then
+        finish cs (logOut s cfg cs (opAt cs.code cs.st.pc))
+      else if ¬ cs.st.stack.length > 1024 ∧ isExtOp (opAt cs.code cs.st.pc) = true then
+        finish cs (extOut s cfg codes cs (opAt cs.code cs.st.pc))
       else finish cs (liftOut cs (stepL s o cfg cs.env cs.code cs.st)) := by
   unfold stepC stepL
   simp only
   by_cases hl : cs.st.stack.length > 1024
   · simp only [hl, if_true, not_true_eq_false, false_and, if_false]; rfl
   · simp only [hl, if_false, not_false_eq_true, true_and]
-    by_cases hc : isCallOp (opAt cs.code cs.st.pc) = true
-    · simp only [hc, if_true]
-    · simp only [hc, Bool.false_eq_true, if_false]; rfl
+
+theorem mem_liftOut_next {out : StepOut} {cs' : CState} (h : cs' ∈ (liftOut cs out).next) :
+    ∃ st' ∈ out.next, cs' = { cs with st := st' } := by
+  obtain ⟨st', hm, rfl⟩ := List.mem_map.1 h
+  exact ⟨st', hm, rfl⟩
+
+/-- the path facts of `finish cs lo` from those of `lo` -/
+theorem finish_paths {lo : LocalOut} (hn : ∀ cs' ∈ lo.next, ∃ ext, cs'.st.path = cs.st.path ++ ext)
+    (he : ∀ e ∈ lo.ends, e.st.path = cs.st.path) :
+    (∀ cs' ∈ (finish cs lo).next, ∃ ext, cs'.st.path = cs.st.path ++ ext) ∧
+    (∀ ce ∈ (finish cs lo).ends, ce.e.st.path = cs.st.path) := by
+  refine ⟨fun cs' h => ?_, fun ce h => ?_⟩
+  · rcases mem_finish_next h with hm | ⟨e', he', k, ks, h', _, _, _, rfl⟩
+    · exact hn cs' hm
+    · exact ⟨[], by simp [resume, he e' he']⟩
+  · obtain ⟨e, hm, rfl, _⟩ := mem_finish_ends h
+    exact he e hm
+
+theorem callShape_paths {lo : LocalOut} (h : CallShape cs lo) :
+    (∀ cs' ∈ lo.next, ∃ ext, cs'.st.path = cs.st.path ++ ext) ∧ (∀ e ∈ lo.ends, e.st.path = cs.st.path) := by
+  rcases h with ⟨e, rfl, he⟩ | ⟨cs1, rfl, hp⟩
+  · refine ⟨fun cs' hm => by simp at hm, fun e' hm => ?_⟩
+    simp only [List.mem_singleton] at hm
+    subst hm; rw [he]
+  · refine ⟨fun cs' hm => ?_, fun e' hm => by simp at hm⟩
+    simp only [List.mem_singleton] at hm
+    subst hm; exact ⟨[], by simp [hp]⟩
+
+theorem liftShape_paths {out : StepOut} (h : Shape s o cfg cs.code cs.st out) :
+    (∀ cs' ∈ (liftOut cs out).next, ∃ ext, cs'.st.path = cs.st.path ++ ext) ∧
+    (∀ e ∈ (liftOut cs out).ends, e.st.path = cs.st.path) := by
+  refine ⟨fun cs' hm => ?_, fun e hm => (shape_end_keeps h hm).1⟩
+  obtain ⟨st', hm', rfl⟩ := mem_liftOut_next hm
+  exact shape_next_path h hm'
+
+theorem stepC_paths :
+    (∀ cs' ∈ (stepC s o cfg codes cs).next, ∃ ext, cs'.st.path = cs.st.path ++ ext) ∧
+    (∀ ce ∈ (stepC s o cfg codes cs).ends, ce.e.st.path = cs.st.path) := by
+  rw [stepC_eq]
+  split
+  · exact finish_paths (callShape_paths callOut_shape).1 (callShape_paths callOut_shape).2
+  · split
+    · exact finish_paths (callShape_paths logOut_shape).1 (callShape_paths logOut_shape).2
+    · split
+      · rcases extOut_shape (s := s) (o := o) (cfg := cfg) (codes := codes) (cs := cs)
+          (op := opAt cs.code cs.st.pc) with h | ⟨out, e, h⟩
+        · exact finish_paths (callShape_paths h).1 (callShape_paths h).2
+        · rw [e]; exact finish_paths (liftShape_paths h).1 (liftShape_paths h).2
+      · refine finish_paths (fun cs' hm => ?_) (fun e hm => stepL_end_path hm)
+        obtain ⟨st', hm', rfl⟩ := mem_liftOut_next hm
+        exact stepL_next_path hm'
 
 theorem stepC_next_path {cs' : CState} (h : cs' ∈ (stepC s o cfg codes cs).next) :
-    ∃ ext, cs'.st.path = cs.st.path ++ ext := by
-  rw [stepC_eq] at h
-  split at h
-  · rcases callOut_shape (s := s) (cfg := cfg) (codes := codes) (cs := cs) (op := opAt cs.code cs.st.pc) with
-      ⟨e, hlo, he⟩ | ⟨cs1, hlo, hp⟩
-    · rw [hlo] at h
-      rcases mem_finish_next h with hm | ⟨e', he', k, ks, h', _, _, _, rfl⟩
-      · simp at hm
-      · simp only [List.mem_singleton] at he'
-        subst he'
-        exact ⟨[], by simp [resume, he]⟩
-    · rw [hlo] at h
-      rcases mem_finish_next h with hm | ⟨e', he', _⟩
-      · simp only [List.mem_singleton] at hm
-        subst hm; exact ⟨[], by simp [hp]⟩
-      · simp at he'
-  · rcases mem_finish_next h with hm | ⟨e', he', k, ks, h', _, _, _, rfl⟩
-    · obtain ⟨st', hm', rfl⟩ := List.mem_map.1 hm
-      exact stepL_next_path hm'
-    · exact ⟨[], by simp [resume, stepL_end_path he']⟩
+    ∃ ext, cs'.st.path = cs.st.path ++ ext := stepC_paths.1 cs' h
 
-theorem stepC_end_path {ce : CEnd} (h : ce ∈ (stepC s o cfg codes cs).ends) : ce.e.st.path = cs.st.path := by
-  rw [stepC_eq] at h
-  split at h
-  · obtain ⟨e, he, rfl, _⟩ := mem_finish_ends h
-    rcases callOut_shape (s := s) (cfg := cfg) (codes := codes) (cs := cs) (op := opAt cs.code cs.st.pc) with
-      ⟨e', hlo, he'⟩ | ⟨cs1, hlo, hp⟩
-    · rw [hlo] at he
-      simp only [List.mem_singleton] at he
-      subst he; rw [he']
-    · rw [hlo] at he; simp at he
-  · obtain ⟨e, he, rfl, _⟩ := mem_finish_ends h
-    exact stepL_end_path he
+theorem stepC_end_path {ce : CEnd} (h : ce ∈ (stepC s o cfg codes cs).ends) : ce.e.st.path = cs.st.path :=
+  stepC_paths.2 ce h
 
 end
 
@@ -485,7 +795,7 @@ variable {s : Simp} {o : Oracle} {cfg : Cfg} {codes : List (Nat × List Nat)}
 
 theorem CallCorr.sound {lo : LocalOut} (h : CallCorr I p S w0 cs w f kcs lo) :
     LocalSound I p S w0 cs w f kcs lo := by
-  rcases h with ⟨e, rfl, he, hnc⟩ | ⟨rfl, hstep⟩ | ⟨cs', w', f', kcs', rfl, hp, hrel', hiff⟩
+  rcases h with ⟨e, rfl, he, hnc⟩ | ⟨h0, rfl, hh0, hstep⟩ | ⟨cs', w', f', kcs', rfl, hp, hrel', hiff⟩
   · refine ⟨fun cs' hm => by simp at hm, fun e' hm => ?_⟩
     simp only [List.mem_singleton] at hm
     subst hm
@@ -499,6 +809,7 @@ theorem CallCorr.sound {lo : LocalOut} (h : CallCorr I p S w0 cs w f kcs lo) :
     refine ⟨⟨rfl, rfl, rfl, rfl⟩, fun _ h ho => ?_⟩
     simp only [Out.halt.injEq] at ho
     subst ho
+    simp only [List.map_nil, hh0]
     exact ⟨hstep, fun b hb => absurd hb List.not_mem_nil⟩
   · refine ⟨fun cs1 hm _ => ?_, fun e' hm => by simp at hm⟩
     simp only [List.mem_singleton] at hm
@@ -508,12 +819,25 @@ theorem CallCorr.sound {lo : LocalOut} (h : CallCorr I p S w0 cs w f kcs lo) :
 theorem CallCorr.complete {lo : LocalOut} (h : CallCorr I p S w0 cs w f kcs lo)
     (hrel : RelC I p S w0 cs w f kcs) (hsat : Sat I cs.st.path) {r : Evm.World × Evm.Halt}
     (hrun : RunStack p w f kcs r) : LocalComplete I p S w0 cs w f r lo := by
-  rcases h with ⟨e, rfl, he, hnc⟩ | ⟨rfl, hstep⟩ | ⟨cs', w', f', kcs', rfl, hp, hrel', hiff⟩
+  rcases h with ⟨e, rfl, he, hnc⟩ | ⟨h0, rfl, hh0, hstep⟩ | ⟨cs', w', f', kcs', rfl, hp, hrel', hiff⟩
   · exact Or.inr (Or.inl ⟨e, by simp, by rw [he]; exact ⟨rfl, rfl, rfl, rfl⟩, Or.inr hnc⟩)
-  · refine Or.inr (Or.inl ⟨{ st := cs.st, out := .halt .stackUnderflow }, by simp [localHalt], ⟨rfl, rfl, rfl, rfl⟩,
-      Or.inl ⟨.stackUnderflow, (w, .stackUnderflow), rfl, rfl, (halts_halt hstep).2 rfl, rfl,
+  · refine Or.inr (Or.inl ⟨{ st := cs.st, out := .halt h0 }, by simp [localHalt], ⟨rfl, rfl, rfl, rfl⟩,
+      Or.inl ⟨h0, (w, h0), rfl, rfl, (halts_halt hstep).2 rfl, by simp only [List.map_nil, hh0],
         fun b hb => absurd hb List.not_mem_nil, wrelM_fullOf_keeps hrel ⟨rfl, rfl, rfl, rfl⟩⟩⟩)
   · exact Or.inl ⟨cs', by simp, by rw [hp]; exact hsat, w', f', kcs', hrel', (hiff r).1 hrun⟩
+
+theorem ExtCorr.sound (hs : SimpSound s) (hrel : RelC I p S w0 cs w f kcs) {lo : LocalOut}
+    (h : ExtCorr I p S w0 cs w f kcs s o cfg lo) : LocalSound I p S w0 cs w f kcs lo := by
+  rcases h with h | ⟨out, rfl, hc, hsh⟩
+  · exact h.sound
+  · exact local_corr_sound hs hrel hc hsh
+
+theorem ExtCorr.complete (hs : SimpSound s) (ho : OracleSound o) (hrel : RelC I p S w0 cs w f kcs)
+    (hsat : Sat I cs.st.path) {r : Evm.World × Evm.Halt} (hrun : RunStack p w f kcs r) {lo : LocalOut}
+    (h : ExtCorr I p S w0 cs w f kcs s o cfg lo) : LocalComplete I p S w0 cs w f r lo := by
+  rcases h with h | ⟨out, rfl, hc, hsh⟩
+  · exact h.complete hrel hsat hrun
+  · exact local_corr_complete hs ho hrel hsat hrun hc hsh
 
 /-- **stepC_sound.** -/
 theorem stepC_sound (hs : SimpSound s) (hI : I.Std) (hmem : cfg.maxMem + 32 ≤ p.memLimit)
@@ -525,13 +849,20 @@ theorem stepC_sound (hs : SimpSound s) (hI : I.Std) (hmem : cfg.maxMem + 32 ≤ 
         ∀ r, RunStack p w' f' kcs' r → RunStack p w f kcs r) ∧
     (∀ ce ∈ (stepC s o cfg codes cs).ends, ce.e.tag = .normal → ∀ h, ce.e.out = .halt h →
         ∃ w', RunStack p w f kcs (w', haltWith h (ce.e.data.map (·.eval I))) ∧
-          WRelM I S w0 w' (stoOf ce.stores)) := by
+          WRelM I S w0 w' (stoOf ce.stores) (evalLogs I ce.logs)) := by
   rw [stepC_eq]
   split
   · rename_i hc
     exact finish_sound hrel hsat
       (callOut_corr hs hmem hdep hcodes hS hcb hrel rfl ((isCallOp_iff _).1 hc.2) hc.1).sound
-  · exact finish_sound hrel hsat (local_step_sound hs hI hmem hrel hsat)
+  · split
+    · rename_i hc
+      exact finish_sound hrel hsat (logOut_corr hs hmem hrel rfl ((isLogOp_iff _).1 hc.2) hc.1).sound
+    · split
+      · rename_i hc
+        exact finish_sound hrel hsat
+          ((extOut_corr (o := o) hs hmem hcodes hcb hrel hsat rfl ((isExtOp_iff _).1 hc.2) hc.1).sound hs hrel)
+      · exact finish_sound hrel hsat (local_step_sound hs hI hmem hrel hsat)
 
 /-- **stepC_complete.** -/
 theorem stepC_complete (hs : SimpSound s) (ho : OracleSound o) (hI : I.Std) (hmem : cfg.maxMem + 32 ≤ p.memLimit)
@@ -549,7 +880,16 @@ theorem stepC_complete (hs : SimpSound s) (ho : OracleSound o) (hI : I.Std) (hme
   · rename_i hc
     exact finish_complete hrel hsat hrun
       ((callOut_corr hs hmem hdep hcodes hS hcb hrel rfl ((isCallOp_iff _).1 hc.2) hc.1).complete hrel hsat hrun)
-  · exact finish_complete hrel hsat hrun (local_step_complete hs ho hI hmem hrel hsat hrun)
+  · split
+    · rename_i hc
+      exact finish_complete hrel hsat hrun
+        ((logOut_corr hs hmem hrel rfl ((isLogOp_iff _).1 hc.2) hc.1).complete hrel hsat hrun)
+    · split
+      · rename_i hc
+        exact finish_complete hrel hsat hrun
+          ((extOut_corr (o := o) hs hmem hcodes hcb hrel hsat rfl ((isExtOp_iff _).1 hc.2) hc.1).complete hs ho hrel
+            hsat hrun)
+      · exact finish_complete hrel hsat hrun (local_step_complete hs ho hI hmem hrel hsat hrun)
 
 end
 
